@@ -44,6 +44,9 @@ type NtfnsHandler struct {
 
 	sigSuspend chan struct{}
 	sigResume  chan struct{}
+	// suspended is true while handle() is parked between suspend() and resume();
+	// only the worker goroutine touches it
+	suspended bool
 }
 
 // NewNtfnsHandler ...
@@ -807,6 +810,9 @@ func worker(h *NtfnsHandler) {
 						// TODO: mark status failed
 						fin = true
 					}
+					if err == ErrTaskAbort {
+						continue
+					}
 				}
 				if !fin {
 					h.taskChan.PushImport(task.walletId)
@@ -849,6 +855,10 @@ func (h *NtfnsHandler) asyncImport(walletId string) (finish bool, err error) {
 	defer func() {
 		h.resume(false, "[asyncImport] stop", logging.LogFormat{"walletId": walletId, "finish": finish})
 	}()
+	if !h.suspended {
+		// shutting down; the persisted wallet status resumes the import at next start
+		return false, ErrTaskAbort
+	}
 
 	stop := uint64(0)
 	heightAdded := make(map[uint64][]wire.Hash, 0)
@@ -997,6 +1007,9 @@ func (h *NtfnsHandler) asyncRemove(walletId string) error {
 	}
 
 	h.suspend(true, "[asyncRemove-1] deleting balance, address, staking/binding histories", logging.LogFormat{"walletId": walletId})
+	if !h.suspended {
+		return ErrTaskAbort
+	}
 	err = mwdb.Update(h.walletMgr.db, func(wtx mwdb.DBTransaction) error {
 		err := h.walletMgr.utxoStore.RemoveUnspentByWalletId(wtx, walletId)
 		if err != nil {
@@ -1028,6 +1041,9 @@ func (h *NtfnsHandler) asyncRemove(walletId string) error {
 			return ErrTaskAbort
 		default:
 			h.suspend(true, "[asyncRemove-2] deleting credits, keystore", logging.LogFormat{"walletId": walletId})
+			if !h.suspended {
+				return ErrTaskAbort
+			}
 			finish := false
 			var removedTx []*wire.Hash
 			err := mwdb.Update(h.walletMgr.db, func(wtx mwdb.DBTransaction) (err error) {
@@ -1230,13 +1246,24 @@ func (h *NtfnsHandler) OnTransactionReceived(tx *wire.MsgTx) error {
 }
 
 func (h *NtfnsHandler) suspend(log bool, msg string, fields logging.LogFormat) {
-	h.sigSuspend <- struct{}{}
+	select {
+	case h.sigSuspend <- struct{}{}:
+		h.suspended = true
+	case <-h.quit:
+		// handle() has returned or is about to: nobody would ever take the signal and
+		// Stop() would wait for this goroutine for ever
+		h.suspended = false
+	}
 	if log {
 		logging.VPrint(logging.INFO, msg, fields)
 	}
 }
 
 func (h *NtfnsHandler) resume(log bool, msg string, fields logging.LogFormat) {
+	if !h.suspended {
+		return
+	}
+	h.suspended = false
 	h.sigResume <- struct{}{}
 	if log {
 		logging.VPrint(logging.INFO, msg, fields)
